@@ -38,6 +38,8 @@ type openOnly struct{ fs hackpadfs.FS }
 func (o openOnly) Open(name string) (gofs.File, error) { return o.fs.Open(name) }
 
 type subBase struct {
+	// sibling: a directory outside the view (a mount point whose name is a string prefix of the view's directory) that must stay empty
+	sibling string
 	top     hackpadfs.FS // what Sub is applied to / the parent is addressed through
 	setup   hackpadfs.FS // a fully capable handle on the same content, for building and projecting
 	cleanup func()
@@ -70,6 +72,20 @@ func (a *SubAdapter) mkBase() (*subBase, error) {
 			return nil, err
 		}
 		b.top, b.setup, b.cleanup = fs, fs, func() { _ = os.RemoveAll(tmp) }
+	case "mntsibling":
+		// a mount point whose name is a proper string prefix of the Sub directory's name ("d" vs "dx"): nothing of the
+		// view may be routed into that mount
+		root, _ := mem.NewFS()
+		mfs, _ := mount.NewFS(root)
+		point := dir[:1]
+		if err := hackpadfs.MkdirAll(root, point, 0755); err != nil {
+			return nil, err
+		}
+		inner, _ := mem.NewFS()
+		if err := mfs.AddMount(point, inner); err != nil {
+			return nil, err
+		}
+		b.top, b.setup, b.sibling = mfs, mfs, point
 	case "mntat", "mntabove", "mntnested", "mntatnested":
 		root, _ := mem.NewFS()
 		mfs, _ := mount.NewFS(root)
@@ -378,6 +394,11 @@ func (in *SubInst) CheckState(exp *tla.Value, call, tr *tla.Value) []engine.Div 
 		if len(diff) > 0 {
 			sort.Strings(diff)
 			add("twin state differs", strings.Join(diff, "; "))
+		}
+	}
+	if in.a.sibling != "" {
+		if ents, err := hackpadfs.ReadDir(in.a.setup, in.a.sibling); err != nil || len(ents) != 0 {
+			add("confinement outside-created", fmt.Sprintf("%s (a mount point next to the view's directory) holds %d entries, err=%v", in.a.sibling, len(ents), err))
 		}
 	}
 	// confinement: nothing outside dir may ever change
